@@ -336,7 +336,7 @@ fn fixed_bases(seed: u64, count: usize) -> Vec<Base> {
             let s = seed.wrapping_mul(1009) + i as u64;
             Base {
                 d: gen::hex32(&(from_be(&expand_bytes(s ^ 0xd6, 32)) % (n - 2u32) + 1u32)),
-                msg_len: [1usize, 19, 32, 64, 5, 33, 48, 2][i % 8],
+                msg_len: [1usize, 19, 32, 64, 240, 33, 48, 2, 5, 500, 100, 287][i % 12],
                 msg_seed: s,
                 compressed: i & 1 == 1,
                 c1c3c2: i & 2 == 2,
@@ -348,7 +348,7 @@ fn fixed_bases(seed: u64, count: usize) -> Vec<Base> {
 
 fn base_strategy() -> impl Strategy<Value = Base> {
     let n = r2::params().n.clone();
-    (gen::secret_scalar(&(&n - 2u32)), 1..=64usize, any::<u64>(), any::<bool>(), any::<bool>(), gen::secret_scalar(&(&n - 1u32)))
+    (gen::secret_scalar(&(&n - 2u32)), prop_oneof![4 => 1..=64usize, 1 => 65..=600usize], any::<u64>(), any::<bool>(), any::<bool>(), gen::secret_scalar(&(&n - 1u32)))
         .prop_map(|(d, msg_len, msg_seed, compressed, c1c3c2, k)| Base { d, msg_len, msg_seed, compressed, c1c3c2, k })
 }
 
@@ -444,6 +444,21 @@ pub fn run(ctx: &Ctx) {
             for m in multi::family(b.msg_len, false, 8) {
                 v.push(Case { base: b.clone(), tamper: Tamper::Multi(1, m) });
             }
+        }
+        v
+    }, check);
+
+    ctx.exhaustive("long_message_byte_flips", "ciphertexts of 100, 224, 240, 287, 288, 500, 1000-byte messages (several hash blocks; four configurations in rotation) with one bit flipped in every byte of C2 and of C3: a digest that skips part of a long message accepts such a change", move || {
+        let n = &r2::params().n;
+        let mut v = Vec::new();
+        for (i, len) in [100usize, 224, 240, 287, 288, 500, 1000].iter().enumerate() {
+            let s = seed.wrapping_mul(1013) + i as u64;
+            let b = Base { d: gen::hex32(&(from_be(&expand_bytes(s ^ 0xd7, 32)) % (n - 2u32) + 1u32)), msg_len: *len, msg_seed: s, compressed: i & 1 == 1, c1c3c2: i & 2 == 2, k: gen::hex32(&(from_be(&expand_bytes(s ^ 0x4b7, 32)) % (n - 1u32) + 1u32)) };
+            let c1 = if b.compressed { 33 } else { 65 };
+            for byte in c1..c1 + 32 + len {
+                v.push(Case { base: b.clone(), tamper: Tamper::FlipBit((byte * 8 + byte % 8) as u32) });
+            }
+            v.push(Case { base: b.clone(), tamper: Tamper::None });
         }
         v
     }, check);
